@@ -7,7 +7,7 @@ p = [json.loads(l) for l in open('/verif/properties.jsonl') if json.loads(l)['id
 print(f"""You are working in a scratch git worktree of the open-source Python library scikit-learn-contrib/metric-learn at {wt} (a checkout of the repository; the library source is in {wt}/metric_learn, its tests in {wt}/test). Work ONLY inside {wt}. Never read, write or run anything in /repo or /verif.
 
 Environment: no network. Python is /venv/bin/python (numpy, scipy, scikit-learn 1.9, pytest, pytest-xdist installed). To import the worktree's code use PYTHONPATH={wt}. Run the test suite with:
-  cd {wt} && PYTHONPATH={wt} /venv/bin/python -m pytest -q -p no:cacheprovider -n 6 test/ 2>&1 | tail -5
+  cd {wt} && OMP_NUM_THREADS=1 OPENBLAS_NUM_THREADS=1 PYTHONPATH={wt} /venv/bin/python -m pytest -q -p no:cacheprovider -n 4 test/ 2>&1 | tail -5
 On the unmodified tree about 2020 tests pass and about 60 fail for unrelated environment reasons (record the exact set of failing test ids before you change anything, e.g. with `-rf`, so you can compare).
 
 Here is a semantic property of the library that should hold:
